@@ -38,8 +38,14 @@ RULES = {
     "`<predecessor> not in <table of traversed nodes>` (a producer outside the sorted graphs, R5) - any other test, such as "
     "`predecessor is child`, decides by itself which dependencies exist: a node that consumes its own output is then not counted, the "
     "cycle check passes and a cyclic graph is reordered instead of being refused unchanged",
+    "R9": "the sort keeps no memory of earlier calls: no condition in Graph.sort (or in the read-only phases it delegates to) reads a field "
+    "of Graph that is re-bound outside the constructor - such a field is a note about earlier operations (\"already sorted\"), and the edges "
+    "the order depends on are edited through nodes (Node.replace_input_with, resize_inputs) without passing through the graph, so no note can "
+    "be kept current: a second sort() after a rewiring returns without looking, leaving an invalid order or an unreported cycle - the "
+    "result would depend on the call history of the object, not on its structure and previous order; fields bound once in the "
+    "constructor (the live containers) may be read",
 }
-FLOORS = {"R1": 2, "R2": 4, "R3": 3, "R4": 1, "R5": 2, "R6": 2, "R7": 2, "R8": 1}
+FLOORS = {"R1": 2, "R2": 4, "R3": 3, "R4": 1, "R5": 2, "R6": 2, "R7": 2, "R8": 1, "R9": 1}
 EXPLANATION = (
     "Dominance of the cycle rejection over every state-writing call of Graph.sort (effect summaries), and structural "
     "checks that relinking goes through the ownership-preserving API into the graph each node already belongs to."
@@ -334,6 +340,40 @@ def run(ctx):
                       how="tests that govern the statement recording a predecessor (between the binding of the candidate and the recording): guard clauses before it and ifs around it",
                       construct=f"edge dropped by {norm(bad.test)[:60] if bad is not None else ''}")
     ctx.require(n8 >= 1, "the statement through which Graph.sort records predecessors was not found")
+    # R9: conditions of the sort read no re-bound field of Graph
+    gslots = set(gcls0.slots or ())
+    init = gcls0.methods.get("__init__")
+    rebound: dict[str, str] = {}
+    for g_ in repo.all_funcs():
+        if not g_.key.startswith("onnx_ir") or g_ is init or isinstance(g_.node, ast.Lambda):
+            continue
+        for w in field_writes(g_):
+            if w.kind == "store" and w.field in gslots and w.field not in rebound:
+                rc = {k.name for k in ctx.typer.recv_classes(g_, w.recv)} if norm(w.recv) != "self" else ({g_.owner_class.name} if g_.owner_class is not None else set())
+                if not rc or rc & {"Graph", "Function"}:
+                    rebound[w.field] = g_.local
+    n9 = 0
+    for q in parts:
+        for x in own_nodes(q.node):
+            tests = []
+            if isinstance(x, (ast.If, ast.While, ast.IfExp)):
+                tests = [x.test]
+            elif isinstance(x, ast.Assert):
+                tests = [x.test]
+            elif isinstance(x, ast.comprehension):
+                tests = list(x.ifs)
+            for t in tests:
+                n9 += 1
+                hit = next((y for y in ast.walk(t) if isinstance(y, ast.Attribute) and y.attr in rebound and isinstance(y.ctx, ast.Load)), None)
+                if hit is not None:
+                    ctx.check("R9", f"{q.local}: `{norm(t)[:60]}` reads no re-bound field of Graph", False, q, t,
+                              f"`{norm(t)[:80]}` reads `{norm(hit)}`, a field of Graph that {rebound[hit.attr]} re-binds after construction: it records what earlier calls did, "
+                              "and rewiring a node's inputs (Node.replace_input_with, resize_inputs) does not pass through the graph - a later sort() that trusts the note "
+                              "returns without looking: an order made invalid by the rewiring stays, a cycle goes unreported (no ValueError)",
+                              how="conditions of sort() and its read-only phases × fields in Graph.__slots__ stored outside Graph.__init__",
+                              construct=f"sort consults the memo field {hit.attr}")
+    ctx.ob("R9", f"{n9} conditions of the sort examined; re-bound Graph fields: {sorted(rebound)}", True, how="field_writes(store) outside Graph.__init__ ∩ Graph.__slots__")
+    ctx.require(n9 >= 5, f"only {n9} conditions found in Graph.sort")
     # R7
     from ..shared import ref_attr_guards
 
